@@ -5,7 +5,7 @@
 From Coq Require Import List QArith ZArith Bool.
 From PyrexLib Require Import Interp.
 From PyrexModel Require Import AntennaModel AntennaSpec.
-From PyrexProofs Require Import C09_struct C09_sum C09_sys C09_sysm C09_main.
+From PyrexProofs Require Import C09_struct C09_sum C09_sys C09_sysm C09_fir C09_main.
 Import ListNotations.
 Open Scope Q_scope.
 
@@ -113,7 +113,7 @@ Print Assumptions noisy_full_waveform_is_noise_plus_sum.
 (* antenna system, linear front end, any lead-in time: the waveform is the front end applied
    to the sum of the received signals; the lead-in round trip is exact *)
 Theorem sys_full_waveform_is_sum : forall sc st ts,
-  noisy (ant_cfg sc) = false -> wf_window ts ->
+  noisy (ant_cfg sc) = false -> fe_taps sc = [] -> wf_window ts ->
   fst (s_full_waveform sc st ts) = st /\
   sig_eq (snd (s_full_waveform sc st ts))
          (mkSig ts (map (fun t => sum_at (signals (ant st)) t * fe_scale sc) ts)).
@@ -122,6 +122,7 @@ Print Assumptions sys_full_waveform_is_sum.
 
 (* antenna system: each processed signal is the front end of the antenna signal on its grid *)
 Theorem sys_signal_is_front_end : forall sc s,
+  fe_taps sc = [] ->
   wf_window (s_times s) -> length (s_times s) = length (s_values s) ->
   sig_eq (sys_signal_of sc s) (front_end sc s).
 Proof. exact sys_signal_is_front_end_lemma. Qed.
@@ -161,7 +162,7 @@ Proof. exact sys_bookkeeping_lemma. Qed.
 Print Assumptions sys_bookkeeping.
 
 Theorem sys_all_waveforms_are_sums : forall sc h,
-  noisy (ant_cfg sc) = false -> invalidate (ant_cfg sc) = true ->
+  noisy (ant_cfg sc) = false -> invalidate (ant_cfg sc) = true -> fe_taps sc = [] ->
   Forall (fun s => wf_window (s_times s)) (received h) ->
   Forall2 sig_eq (snd (s_all_waveforms sc (s_final sc s_init h)))
     (map (fun s => mkSig (s_times s) (map (fun t => sum_at (received h) t * fe_scale sc) (s_times s)))
@@ -182,3 +183,37 @@ Theorem sys_clear_resets : forall sc h r q,
   snd (s_step sc st q) = snd (s_step sc s_init q).
 Proof. exact sys_clear_resets_lemma. Qed.
 Print Assumptions sys_clear_resets.
+
+(* ---------------------------------------------------------------- front ends with memory
+   gain followed by an FIR filter on the sample sequence (delay line, 2-tap filter ...).  On a uniform
+   window, when the lead-in grid is at least as long as the filter memory, the system waveform is the
+   front end applied to the sum of the received signals on the infinite grid of step dt, restricted to
+   the window:  y(t_j) = sum_m taps[m] * gain * S(t_j - m*dt).  This is where the dt-preservation of
+   _calculate_lead_in_times matters. *)
+Theorem sys_fir_waveform : forall sc st ts c0 taps',
+  noisy (ant_cfg sc) = false -> fe_taps sc = c0 :: taps' ->
+  wf_window ts -> uniform ts ->
+  (length (fe_taps sc) <= S (Z.to_nat (lead_in_n sc ts)))%nat ->
+  let dt := t_second ts - t_first ts in
+  fst (s_full_waveform sc st ts) = st /\
+  sig_eq (snd (s_full_waveform sc st ts))
+         (mkSig ts (map (fir_response (fe_taps sc) (fun u => sum_at (signals (ant st)) u * fe_scale sc) dt) ts)).
+Proof. exact sys_fir_waveform_lemma. Qed.
+Print Assumptions sys_fir_waveform.
+
+(* the lead-in grid, counted backwards from the j-th requested time, is t_j - m*dt: dt is preserved *)
+Theorem lead_in_grid_preserves_dt : forall sc ts j m,
+  wf_window ts -> uniform ts -> (j < length ts)%nat ->
+  let n := Z.to_nat (lead_in_n sc ts) in
+  (m <= n + j)%nat ->
+  nth (n + j - m) (lead_in_times sc ts) 0 == nth j ts 0 - nat_Q m * (t_second ts - t_first ts).
+Proof. exact lead_in_back_nodes. Qed.
+Print Assumptions lead_in_grid_preserves_dt.
+
+(* a lead_in_time of at least the filter memory (in time) makes the lead-in grid long enough *)
+Theorem lead_in_covers_memory : forall sc ts,
+  wf_window ts -> uniform ts -> 0 <= lead_in sc ->
+  nat_Q (length (fe_taps sc) - 1) * (t_second ts - t_first ts) <= lead_in sc ->
+  (length (fe_taps sc) <= S (Z.to_nat (lead_in_n sc ts)))%nat.
+Proof. exact lead_in_covers_memory_lemma. Qed.
+Print Assumptions lead_in_covers_memory.
